@@ -11,7 +11,10 @@
     * apricotpb.RunType_name / RunType_value, FALLBACK_RUNTYPE, FALLBACK_ROLENAME, ConfigComponentsPath, SEPARATOR;
     * for each of the 16 existence patterns, the sequence of Exists probes and the result of the linked
       local.Service.ResolveComponentQuery on a recording backend;
-    * the names template.MakeUtilFuncMap binds.
+    * the names template.MakeUtilFuncMap binds;
+    * what the linked local.Service writes into a payload for a supplied value (every ASCII character by itself, some
+      realistic values; plainly and inside an explicit `{% autoescape on %}` block), and every call of pongo2's
+      process-wide `SetAutoescape` in the repository (go/ast).
   The `…_is_code` theorems identify the hand-written model with those tables, so every theorem below is about what
   the code computes now; a changed table breaks a theorem. Model functions that are not tables (recogniser, trim,
   resolve, YAML walk, template fragment) are tied by the correspondence run.
@@ -52,6 +55,26 @@ theorem C20_fallback_order_is_code : (List.range 16).map walkPattern = Gen.C20.r
 
 /-- The names the service binds on top of the supplied variables are the ones the model treats as reserved. -/
 theorem C20_reserved_names_are_code : reservedNames = Gen.C20.utilFuncNames := by decide
+
+set_option maxRecDepth 16384 in
+/-- SUBSTITUTION IS THE CODE'S: for every probed value — each ASCII character by itself (`& < > " '` among them), a
+    non-ASCII one, realistic JSON/HTML-looking values — the payload the linked GetAndProcessComponentConfiguration
+    returned for the entry `{{ v }}` is what the model's configuration of the code as it is (`codeCfg`) writes; the five
+    characters pongo2 would rewrite were all probed; and the only place of the repository that touches pongo2's
+    process-wide autoescape switch is `init()` of apricot/local, which turns it off. (Reverting the repair of finding
+    `autoescape_html` breaks all three parts.) -/
+theorem C20_substitution_is_code :
+    Gen.C20.substProbes.map (fun p => codeCfg.subst p.1) = Gen.C20.substProbes.map (fun p => p.2) ∧
+    escapedChars.all (fun c => Gen.C20.substProbes.any (fun p => p.1 == [c])) = true ∧
+    autoescapeSwitches = Gen.C20.autoescapeSwitches := by decide
+
+set_option maxRecDepth 16384 in
+/-- The legacy configuration is pongo2 with autoescaping on: inside an explicit `{% autoescape on %}` block the linked
+    service writes for every probed value what `legacyCfg` (the model's `escape`) writes. So the refutation
+    `C20_finding_autoescape_html` is about what the code did before the repair — and an entry that asks for escaping
+    still gets it. -/
+theorem C20_escape_is_pongo2 :
+    Gen.C20.escapeProbes.map (fun p => legacyCfg.subst p.1) = Gen.C20.escapeProbes.map (fun p => p.2) := by decide
 
 /-! ## resolution -/
 
@@ -144,7 +167,8 @@ theorem C20_yaml_value_exists (t : List Leaf) (key v : Str) (h : yamlGet t key =
   yamlGet_exists t key v h
 
 /-- The template loader fetches exactly the entry the (resolved) query names: for a well-formed query the re-parse of
-    the printed path is the identity, so the processed payload is a function of that entry's content and the variables. -/
+    the printed path is the identity, so the processed payload is that entry's content with every `{{ name }}` replaced
+    by the value supplied for `name`, as supplied. -/
 theorem C20_processed_reads_named_entry (t : List Leaf) (q : Query) (vars : List (Str × Str)) (hq : wf q = true) :
     processComponent t q vars =
       match yamlGet t (absRaw q) with
@@ -154,71 +178,111 @@ theorem C20_processed_reads_named_entry (t : List Leaf) (q : Query) (vars : List
         | none => .unmodelled
         | some segs =>
           if (bindings vars).all (fun kv => validIdent kv.1) then
-            .ok (renderSegs (fun n => escape (lookup (bindings vars) n)) segs)
+            .ok (renderSegs (fun n => lookup (bindings vars) n) segs)
           else .err "badident" :=
   processComponent_wf t q vars hq
 
-/-- Content without any `{` is returned unchanged, whatever the variables. -/
-theorem C20_render_plain (content : Str) (vars : List (Str × Str)) (h : '{' ∉ content) :
-    render content vars = some content ∧ renderVerbatim content vars = some content := by
+/-- Content without any `{` is returned unchanged, whatever the variables (and whatever the configuration). -/
+theorem C20_render_plain (c : Cfg) (content : Str) (vars : List (Str × Str)) (h : '{' ∉ content) :
+    renderWith c content vars = some content ∧ renderVerbatim content vars = some content := by
   obtain ⟨segs, h1, h2⟩ := lex_text_no_brace content h
-  simp [render, renderVerbatim, lexTemplate, h1, h2]
+  simp [renderWith, renderVerbatim, lexTemplate, h1, h2]
 
 /-- Exactly the variables supplied: the rendering depends on the variables only through the values of the names that
     occur in the template (unused variables are irrelevant, two variable sets agreeing on the used names render alike). -/
-theorem C20_render_exact (content : Str) (segs : List Seg) (vars vars' : List (Str × Str))
+theorem C20_render_exact (c : Cfg) (content : Str) (segs : List Seg) (vars vars' : List (Str × Str))
     (hl : lexTemplate content = some segs)
     (h : ∀ n ∈ varNames segs, lookup (bindings vars) n = lookup (bindings vars') n) :
-    render content vars = render content vars' ∧ renderVerbatim content vars = renderVerbatim content vars' := by
-  simp only [render, renderVerbatim, hl, Option.map_some, Option.some.injEq]
+    renderWith c content vars = renderWith c content vars' ∧ renderVerbatim content vars = renderVerbatim content vars' := by
+  simp only [renderWith, renderVerbatim, hl, Option.map_some, Option.some.injEq]
   exact ⟨renderSegs_congr _ _ segs (fun n hn => by simp [h n hn]), renderSegs_congr _ _ segs h⟩
 
-/-- FULL-STRENGTH substitution clause (kept visible; FALSE of the code, see `C20_finding_autoescape_html`):
-    every `{{ name }}` is replaced by the value supplied for `name`, verbatim. -/
-def C20_substitution_full : Prop :=
-  ∀ (content : Str) (vars : List (Str × Str)), render content vars = renderVerbatim content vars
+/-- FULL-STRENGTH substitution clause of a configuration: every `{{ name }}` is replaced by the value supplied for
+    `name`, verbatim — all templates of the fragment, all variables, all values. -/
+def C20_substitution_full (c : Cfg) : Prop :=
+  ∀ (content : Str) (vars : List (Str × Str)), renderWith c content vars = renderVerbatim content vars
 
-/-- What IS proved: substitution is verbatim whenever the values of the names the template mentions contain none of
-    `& < > " '` — for every template of the fragment, any number of occurrences, any variables. -/
-theorem C20_substitution_partial (content : Str) (segs : List Seg) (vars : List (Str × Str))
+/-- THE CODE AS IT IS substitutes verbatim: for every template of the fragment and ALL variables and values — `& < > " '`
+    included — the rendering is the content with every `{{ name }}` replaced by the supplied value itself
+    (`render` = `renderWith codeCfg`; `codeCfg` is tied to the linked code by `C20_substitution_is_code`). -/
+theorem C20_substitution_code : C20_substitution_full codeCfg := by
+  intro content vars
+  simp only [renderWith, renderVerbatim, subst_code]
+
+/-- …in the vocabulary of the model's `render`. -/
+theorem C20_render_is_verbatim (content : Str) (vars : List (Str × Str)) :
+    render content vars = renderVerbatim content vars :=
+  C20_substitution_code content vars
+
+/-- Whatever the configuration (the legacy one included): substitution is verbatim whenever the values of the names the
+    template mentions contain none of `& < > " '` — for every template of the fragment, any number of occurrences, any
+    variables. -/
+theorem C20_substitution_partial (c : Cfg) (content : Str) (segs : List Seg) (vars : List (Str × Str))
     (hl : lexTemplate content = some segs)
     (hesc : ∀ n ∈ varNames segs, escapeFree (lookup (bindings vars) n) = true) :
-    render content vars = renderVerbatim content vars := by
-  simp only [render, renderVerbatim, hl, Option.map_some, Option.some.injEq]
-  exact renderSegs_congr _ _ segs (fun n hn => escape_of_escapeFree _ (hesc n hn))
+    renderWith c content vars = renderVerbatim content vars := by
+  simp only [renderWith, renderVerbatim, hl, Option.map_some, Option.some.injEq]
+  exact renderSegs_congr _ _ segs (fun n hn => subst_of_escapeFree c _ (hesc n hn))
 
-/-- The finding, machine-checked on the model: pongo2's default autoescape HTML-escapes substituted values, so
-    `{{ a }}` with a = `"x"&` yields `&quot;x&quot;&amp;`. -/
-theorem C20_finding_autoescape_html : ¬ C20_substitution_full := by
+/-- The finding (repaired in the code as it is), machine-checked on the model of the code AS IT WAS: with pongo2's
+    default autoescaping substituted values are HTML-escaped, so `{{ a }}` with a = `"x"&` yields `&quot;x&quot;&amp;`. -/
+theorem C20_finding_autoescape_html : ¬ C20_substitution_full legacyCfg := by
   intro h
   have := h ['{', '{', ' ', 'a', ' ', '}', '}'] [(['a'], ['"', 'x', '"', '&'])]
   revert this; decide
 
 /-! ## the model satisfies the Spec the harness evaluates on the implementation -/
 
-/-- For every tree, every well-formed query and all variables, the model's observation satisfies every clause of
-    Spec.C20 except (possibly) verbatim substitution. -/
-theorem C20_model_meets_spec_but_substitution (t : List Leaf) (q : Query) (vars : List (Str × Str)) :
-    lookupOkButSubstitution t q vars (modelLookupObs t q vars) = true := by
-  unfold lookupOkButSubstitution modelLookupObs
+/-- For every configuration, every tree, every query and all variables, the model's observation satisfies every clause
+    of Spec.C20 except (possibly) verbatim substitution. -/
+theorem C20_model_meets_spec_but_substitution (c : Cfg) (t : List Leaf) (q : Query) (vars : List (Str × Str)) :
+    lookupOkButSubstitution t q vars (modelLookupObsWith c t q vars) = true := by
+  unfold lookupOkButSubstitution modelLookupObsWith
   have hr := resolutionOk_model (yamlExists t) q
   cases h : resolve (yamlExists t) q with
   | none => simp only [h] at hr ⊢; simp [hr, payloadOk_getComponent]
   | some r => simp only [h] at hr ⊢; simp [hr, payloadOk_getComponent]
 
-/-- …and the whole of Spec.C20, substitution included, when the values the resolved entry's template mentions are
-    free of the autoescaped characters. -/
-theorem C20_model_meets_spec_partial (t : List Leaf) (q : Query) (vars : List (Str × Str)) (hq : wf q = true)
-    (hesc : ∀ r, resolve (yamlExists t) q = some r → valuesEscapeFree t r vars = true) :
+/-- THE CODE AS IT IS MEETS THE WHOLE OF Spec.C20, substitution included: for every tree, every well-formed query and
+    ALL variables and values, the model's observation satisfies every clause the harness evaluates on the implementation. -/
+theorem C20_model_meets_spec_code (t : List Leaf) (q : Query) (vars : List (Str × Str)) (hq : wf q = true) :
     lookupOk t q vars (modelLookupObs t q vars) = true := by
-  unfold lookupOk modelLookupObs
+  unfold lookupOk modelLookupObs modelLookupObsWith
   have hr := resolutionOk_model (yamlExists t) q
   cases h : resolve (yamlExists t) q with
   | none => simp only [h] at hr ⊢; simp [hr, payloadOk_getComponent]
   | some r =>
     simp only [h] at hr ⊢
     have hw := resolve_wf (yamlExists t) q r hq h
-    simp [hr, payloadOk_getComponent, processedOk_model t r vars hw (hesc r h)]
+    have hp := processedOk_model t r vars hw
+    unfold processComponent at hp
+    simp [hr, payloadOk_getComponent, hp]
+
+/-- Whatever the configuration (the legacy one included), the whole of Spec.C20 holds when the values the resolved
+    entry's template mentions are free of the five characters autoescaping rewrites. -/
+theorem C20_model_meets_spec_partial (c : Cfg) (t : List Leaf) (q : Query) (vars : List (Str × Str)) (hq : wf q = true)
+    (hesc : ∀ r, resolve (yamlExists t) q = some r → valuesEscapeFree t r vars = true) :
+    lookupOk t q vars (modelLookupObsWith c t q vars) = true := by
+  unfold lookupOk modelLookupObsWith
+  have hr := resolutionOk_model (yamlExists t) q
+  cases h : resolve (yamlExists t) q with
+  | none => simp only [h] at hr ⊢; simp [hr, payloadOk_getComponent]
+  | some r =>
+    simp only [h] at hr ⊢
+    have hw := resolve_wf (yamlExists t) q r hq h
+    simp [hr, payloadOk_getComponent, processedOk_modelWith c t r vars hw (hesc r h)]
+
+/-- The Spec tells the two configurations apart: on the finding's witness (`hosts={{ hosts }}` with
+    hosts = `["flp1","flp2"]`) the observation of the code as it was FAILS `lookupOk` — were the repair reverted, the
+    harness would report this input as a plain violation — while the code as it is returns `hosts=["flp1","flp2"]`. -/
+theorem C20_legacy_violates_spec :
+    let t : List Leaf := [⟨[['o', '2'], ['c', 'o', 'm', 'p', 'o', 'n', 'e', 'n', 't', 's'], ['q', 'c'], ['P', 'H', 'Y', 'S', 'I', 'C', 'S'], ['f', 'l', 'p', '0', '0', '1'], ['e']],
+                           some ['h', 'o', 's', 't', 's', '=', '{', '{', ' ', 'h', 'o', 's', 't', 's', ' ', '}', '}']⟩]
+    let q : Query := ⟨['q', 'c'], 1, ['f', 'l', 'p', '0', '0', '1'], ['e']⟩
+    let vars := [(['h', 'o', 's', 't', 's'], ['[', '"', 'f', 'l', 'p', '1', '"', ',', '"', 'f', 'l', 'p', '2', '"', ']'])]
+    wf q = true ∧ lookupOk t q vars (modelLookupObsWith legacyCfg t q vars) = false ∧
+    (modelLookupObs t q vars).proc =
+      .ok ['h', 'o', 's', 't', 's', '=', '[', '"', 'f', 'l', 'p', '1', '"', ',', '"', 'f', 'l', 'p', '2', '"', ']'] := by decide
 
 /-- Query strings: the model's NewQuery satisfies Spec.C20.parseOk on every string. -/
 theorem C20_parse_meets_spec (s : Str) : parseOk s (modelFullObs s) = true := by
@@ -235,7 +299,8 @@ example :
     let vars := [(['h', 'o', 's', 't'], ['f', 'l', 'p', '0', '0', '1'])]
     wf q = true ∧ resolve (yamlExists t) q = some ⟨['q', 'c'], 300, ['a', 'n', 'y'], ['e']⟩ ∧
     valuesEscapeFree t ⟨['q', 'c'], 300, ['a', 'n', 'y'], ['e']⟩ vars = true ∧
-    processComponent t ⟨['q', 'c'], 300, ['a', 'n', 'y'], ['e']⟩ vars = .ok ['h', 'o', 's', 't', '=', 'f', 'l', 'p', '0', '0', '1'] := by decide
+    processComponent t ⟨['q', 'c'], 300, ['a', 'n', 'y'], ['e']⟩ vars = .ok ['h', 'o', 's', 't', '=', 'f', 'l', 'p', '0', '0', '1'] ∧
+    processComponentWith legacyCfg t ⟨['q', 'c'], 300, ['a', 'n', 'y'], ['e']⟩ vars = .ok ['h', 'o', 's', 't', '=', 'f', 'l', 'p', '0', '0', '1'] := by decide
 
 /-! ## histories: many requests on one service (the per-base-path template cache)
 
@@ -317,13 +382,13 @@ theorem C20_seq_fresh_plain (t : List Leaf) (q : Query) (vars : List (Str × Str
 
 /-- The model's answers to a whole history satisfy the Spec the harness evaluates on the implementation — every
     request judged against the backend of its moment and its own variables — for all histories without stale requests,
-    with well-formed queries and values free of the autoescaped characters. -/
+    with well-formed queries; ALL variables and values (the code as it is substitutes them as supplied). -/
 theorem C20_seq_model_meets_spec_partial (t : List Leaf) (ops : List Op) (hs : noStale ops = true)
-    (hwf : opsWf ops = true) (hesc : seqEscapeFree t ops = true) :
+    (hwf : opsWf ops = true) :
     seqOk t ops (modelSeqObs t ops) = true := by
   unfold modelSeqObs
   rw [C20_seq_fresh_partial t ops hs]
-  exact seqOk_runFresh t ops hwf hesc
+  exact seqOk_runFresh t ops hwf
 
 /-- Non-vacuity: an entry that includes a snippet and a child that extends a base, asked three times with shrinking
     variable sets on one service; a variable that is no longer supplied renders empty. -/
@@ -337,7 +402,7 @@ example :
     let g : Query := ⟨['q', 'c'], 300, ['a', 'n', 'y'], ['g']⟩
     let c : Query := ⟨['q', 'c'], 300, ['a', 'n', 'y'], ['c']⟩
     let ops : List Op := [.proc g [(['w'], ['A']), (['m'], ['f'])], .proc g [(['w'], ['B'])], .proc c [(['w'], ['C'])], .proc c []]
-    noStale ops = true ∧ opsWf ops = true ∧ seqEscapeFree t ops = true ∧
+    noStale ops = true ∧ opsWf ops = true ∧
     run (freshSvc t) ops = [.pay (.ok ['[', 'A', ']', 't', '=', 'f']), .pay (.ok ['[', 'B', ']', 't', '=']),
                             .pay (.ok ['<', 'C', '>']), .pay (.ok ['<', '>'])] := by decide
 
@@ -467,10 +532,10 @@ theorem C20_conc_cleared_snapshot_is_visible :
 
 /-- The model's observation of a concurrent case satisfies the Spec the harness evaluates on the implementation: every
     answer — alone or under concurrency — names the most specific existing entry, returns the named entry's content,
-    templates it with the request's own variables (well-formed queries, values free of the autoescaped characters). -/
-theorem C20_conc_model_meets_spec_partial (t : List Leaf) (reqs : List Req) (hwf : reqs.all reqWf = true)
-    (hesc : reqs.all (reqEscFree t) = true) : concOk t reqs (modelConcObs t reqs) = true :=
-  concOk_model t reqs hwf hesc
+    templates it with the request's own variables, as supplied (well-formed queries; ALL variables and values). -/
+theorem C20_conc_model_meets_spec_partial (t : List Leaf) (reqs : List Req) (hwf : reqs.all reqWf = true) :
+    concOk t reqs (modelConcObs t reqs) = true :=
+  concOk_model t reqs hwf
 
 /-- Non-vacuity: three requests on a tree where the exact entry and ANY/any exist, under a schedule that interleaves
     their probes; each finishes with its sequential answer. -/
@@ -482,7 +547,7 @@ example :
     let q2 : Query := ⟨['q', 'c'], 2, ['s'], ['e']⟩
     let reqs : List Req := [.rget q2, .rproc q [(['a'], ['1'])], .res q]
     let c := (startConf t reqs).run [0, 1, 2, 0, 1, 0, 2, 0, 1, 0, 0, 2]
-    reqs.all reqWf = true ∧ reqs.all (reqEscFree t) = true ∧
+    reqs.all reqWf = true ∧
     c.answer? 0 = some (.res (some ⟨['q', 'c'], 300, ['a', 'n', 'y'], ['e']⟩) (.ok ['y'])) ∧
     c.answer? 1 = some (.res (some q) (.ok ['x', '=', '1'])) ∧
     c.answer? 2 = some (.res (some q) .dash) := by decide
